@@ -303,6 +303,21 @@ Definition p_symlink (empty_target : bool) (t : tree) (lnk : path) : option (cat
     end
   end.
 
+(* ---------- Client.Walk (kr/fs walker over LSTAT and READDIR): the root is examined without following it, a directory's
+   entries are pushed and visited in turn, nothing but directories is descended into (a link is a leaf) ---------- *)
+Fixpoint c_walk (fuel : nat) (t : tree) (p : path) (k : kind) : list (path * kind) :=
+  match fuel with
+  | O => []
+  | S f => (p, k) :: match k with
+                     | KDir => flat_map (fun e => c_walk f t (fst e) (snd e)) (children t p)
+                     | _ => []
+                     end
+  end.
+
+(* filepath.Walk's specification: the root as Lstat sees it and every entry below it *)
+Definition spec_walk (t : tree) (p : path) (k : kind) : list (path * kind) :=
+  (p, k) :: filter (fun e => under p (fst e) && negb (path_eqb (fst e) p)) t.
+
 (* well-formed trees: every path once, no entry for the root, the parent of every entry is a directory *)
 Definition wf (t : tree) : Prop :=
   NoDup (map fst t) /\ forall p k, In (p, k) t -> p <> [] /\ kind_at t (removelast p) = Some KDir.
